@@ -387,6 +387,33 @@ func (sc *collection) doBuild(ctx context.Context) (Provider, error) {
 		}
 	}
 
+	// Scopes that singleton constructors opened (and kept) while the initializers were not
+	// published yet have not run them: they do now, like the root scope
+	p.scopesMu.Lock()
+	opened := make([]*scope, 0, len(p.scopes))
+	for s := range p.scopes {
+		opened = append(opened, s)
+	}
+	p.scopesMu.Unlock()
+
+	for _, s := range opened {
+		for _, descriptor := range voidReturnScoped {
+			key := instanceKey{Type: descriptor.Type, Key: descriptor.Key, Group: descriptor.Group}
+			if _, err := s.resolve(key, descriptor); err != nil {
+				_ = p.Close()
+				return nil, &BuildError{
+					Phase:   "scope-creation",
+					Details: "failed to initialize a scope created during the build",
+					Cause: &ResolutionError{
+						ServiceType: descriptor.Type,
+						ServiceKey:  descriptor.Key,
+						Cause:       fmt.Errorf("failed to initialize scoped service: %w", err),
+					},
+				}
+			}
+		}
+	}
+
 	return p, nil
 }
 
